@@ -303,6 +303,24 @@ func NewSet(hosts ...*Host) *Set {
 	return s
 }
 
+// syncHealthy makes the healthy maps agree with the health flag of h, which
+// must be the stored host of its address: the address is dropped from both
+// tiers and put (back) into the tier of h only if h is flagged healthy.
+// The caller rebuilds the cache.
+func (set *Set) syncHealthy(h *Host) {
+	delete(set.healthyMain, h.Addr)
+	delete(set.healthyBackup, h.Addr)
+	if !h.IsHealthy() {
+		return
+	}
+	switch h.Type {
+	case TypeMain:
+		set.healthyMain[h.Addr] = h
+	case TypeBackup:
+		set.healthyBackup[h.Addr] = h
+	}
+}
+
 func (set *Set) addToHealthy(host ...*Host) {
 	if len(host) == 0 {
 		return
@@ -372,9 +390,15 @@ func (set *Set) add(hosts ...*Host) {
 		return
 	}
 	for _, host := range hosts {
+		// an address that is already stored with another object: that object
+		// leaves the set (its connections are closed like on removal).
+		if old, ok := set.all[host.Addr]; ok && old != host {
+			old.markRemoved()
+		}
 		set.all[host.Addr] = host
+		set.syncHealthy(host)
 	}
-	set.addToHealthy(hosts...)
+	set.buildHealthyCache()
 }
 
 // Remove removes host from the set.
